@@ -4,6 +4,7 @@ import (
 	"context"
 	"errors"
 	"sync"
+	"sync/atomic"
 	"time"
 )
 
@@ -111,6 +112,8 @@ func (p *pool) Store(v wire) {
 		p.list = append(p.list, v)
 		p.startTimerIfNeeded()
 		v.ResetTimer()
+	} else if dp, ok := v.(*pipe); ok && v != p.dead && atomic.LoadInt32(&dp.state) == 3 {
+		// the placeholder Acquire hands to a caller whose context is done: it was never counted in p.size
 	} else {
 		p.size--
 		v.Close()
